@@ -221,8 +221,8 @@ def run_case(case, model):
                 phase = [n]
                 seen = {ops[n][1]} if ops[n][0] not in ('l',) else None
                 m = n + 1
-                while seen is not None and m < len(ops) and ops[m][0] not in ('l', 'w') and ops[n][0] != 'w' \
-                        and ops[m][1] not in seen and len(phase) < 4:
+                while seen is not None and m < len(ops) and ops[m][0] not in ('l',) \
+                        and ops[m][1] not in seen and len(phase) < 4:      # writes of different messages overlap too
                     seen.add(ops[m][1])
                     phase.append(m)
                     m += 1
